@@ -430,12 +430,12 @@ claim("C08",
 claim("C09",
       "Gate: through the real will_execute_raw / will_execute / will_return_async, for ALL pairs of printable-ASCII signature strings up to length 8 (12 in the thorough tier): identical text => installed exactly once, any difference => signature-mismatch panic before any OS event; checked/unchecked pairing refused; null pointer refused by FuncPtr::new. "
       "Macros: every func!/closure!/fake!/async macro form records type_name::<T>() for each member of an enumerated 16-type family (unchecked forms record \"\"), and all ordered pairs of structurally different members have different names.",
-      "Bounded in string length (labelled); the type family is enumerated, not all Rust types; type names are rendered by the compiler that builds the harness (trusted); pairs differing only in lifetime spelling are not judged.",
+      "The Kani gate obligations are bounded in string length (labelled); the Verus unit gate_unbounded proves the same gate contract on the text of will_execute_raw / will_execute / will_return_async / when_called / when_called_unchecked for signature strings of ANY length (vstd's specification of str equality assumed); the type family is enumerated, not all Rust types; type names are rendered by the compiler that builds the harness (trusted); pairs differing only in lifetime spelling are not judged.",
       trusted_base=[TB_KANI, TB_HOOK, "std::any::type_name rendering by rustc"])
 claim("C10",
       "Gate: one obligation per member of a signature family enumerated from a grammar (110 quick / 746 thorough members: prefixes x parameter lists x return types incl. returns that merely END in `-> bool`): the real will_return_boolean accepts iff the derivation says the return type is exactly bool, and refuses before any OS event otherwise. "
       "Stub: for both values the x86-64 trampoline is exactly `mov rax, imm32(v); ret` (only rax written, return address popped as by a normal return), the A64 one decodes to `MOVZ X0,#v; RET`, the 32-bit ARM one branches to return_true/return_false; the requested value is what reaches the installer.",
-      "The gate is decided on the enumerated family (exhaustive over the grammar, not over all strings); argument-independence and 'no other effect' follow from the instruction effect tables (trusted).",
+      "signature_returns_bool is decided on the enumerated family (exhaustive over the grammar, not over all strings); that will_return_boolean proceeds only when signature_returns_bool holds of the recorded text, refuses before any request to the core, and passes exactly the value asked for is proved for all strings and values by the Verus unit gate_unbounded (modular: against signature_returns_bool's contract); argument-independence and 'no other effect' follow from the instruction effect tables (trusted).",
       trusted_base=[TB_KANI, TB_SHIM, TB_HOOK, TB_X86, TB_A64])
 claim("C11",
       "Proof (Verus, unbounded): the real allocate_jit_memory_unix loop, translated by rules R1-R5, for every target address below 2^47, every page size in {4K,16K,64K} and ANY mmap behaviour (failure or any fresh address, hint not honoured): returns a fresh mapping within the reach of the entry branch (x86-64: +-128 MiB so rel32 always applies; AArch64/Linux: [-2^27, 2^27); macOS: +-2 GiB), every rejected placement is unmapped, the final panic is reached only with nothing left mapped, no overflow, termination. "
@@ -721,3 +721,24 @@ HARNESSES["c11_alloc_twin"]["shared"] = {"C11.twin.frame": ["C12", "C03", "C14"]
 VERUS["alloc_linux_x86_64"]["props"] = sorted(set(VERUS["alloc_linux_x86_64"]["props"]) | {"C05"})
 for _o in ("C11.alloc.terminates", "C11.alloc.clean-failure", "C11.alloc.inv.given-back"):
     VERUS["alloc_linux_x86_64"]["shared"][_o] = sorted(set(VERUS["alloc_linux_x86_64"]["shared"].get(_o, [])) | {"C05"})
+
+
+# ------------------------------------------------------------------------------------------------
+# Verus unit gate_unbounded: the interface functions between the user and the patching core, on their real text,
+# for signature strings of ANY length, all pointers and all earlier histories of the injector (ghost request log).
+import verus_gate  # noqa: E402
+_GATE_FNS = [(INJ, n) for n in verus_gate.ORDER]
+VERUS["gate_unbounded"] = dict(
+    props=["C09", "C10", "C01", "C02", "C05", "C06", "C07", "C08", "C12", "C14"], builder=verus_gate.build, fns=_GATE_FNS, expect_verified=9, soft_frontend=True,
+    shared={
+        "C09.gate.unbounded.refuses-before-install": ["C05", "C10", "C14"],
+        "C09.gate.unbounded.accepts-identical": ["C10", "C14"],
+        "C09.gate.unbounded.accepts-only-identical": ["C14"],
+        "C01.flavour.unbounded.request": ["C14", "C02"],
+        "C01.flavour.unbounded.src": ["C14"],
+        "C02.guard.kept.unbounded": ["C12", "C14"],
+        "C02.guard.kept.unbounded.older": ["C12", "C14"],
+        "C02.guard.kept.unbounded.newest": ["C12", "C14"],
+        "C06.verifier.kept.unbounded": ["C08"],
+        "C07.reset.unbounded": ["C06", "C08"],
+    })
